@@ -9,8 +9,9 @@ from harness.core import llit, qlit, slit, zlit
 IMPORTS = "From Coq Require Import ZArith QArith List String.\nImport ListNotations.\nFrom Elex Require Import Model.Units Model.Compare.\n"
 
 RULE = ("(a) CombinedDataHandler.get_units on generated elections (boundary-heavy feeds: turnout factor exactly on / next to each limit, expected vote "
-        "exactly at / one below the threshold, zero baselines, unit and state blocklists, both unreporting policies, outlier models on with the flags "
+        "exactly at / one below the threshold, zero baselines, unit and state blocklists, feed rows with a missing results value, both unreporting policies, outlier models on with the flags "
         "captured); the three returned frames are compared row by row, inside Coq, with the procedural model AND with the decision table; "
+        "(a') every second election also through ModelClient.get_estimates (rarely used limits included: 0, 0.25, 3, 5), unit table categories against the same rules; "
         "(b) the single-unit decision table enumerated completely: unit-blocklisted x state-blocklisted x zero baseline x turnout factor "
         "{<lo,=lo,inside,=hi,>hi} x expected vote {<thr,=thr,>thr} x turnout-flag x margin-flag (480 probe units + units outside the baseline) embedded "
         "in one election with a stubbed outlier model, both policies; (c) derived columns (margin, weights, normalised margin, turnout factor) "
@@ -23,7 +24,16 @@ CAT = {"expected": "Expected", "unexpected": "Unexpected", "non-modeled: blockli
 
 
 def weights_of(row, margin, prefix):
-    return (row[f"{prefix}_dem"] + row[f"{prefix}_gop"]) if margin else row[f"{prefix}_turnout"]
+    vals = [row[f"{prefix}_dem"], row[f"{prefix}_gop"]] if margin else [row[f"{prefix}_turnout"]]
+    return sum(0 if (v is None or v != v) else v for v in vals)
+
+
+NEEDS = {"dem": ["results_dem"], "gop": ["results_gop"], "turnout": ["results_turnout"], "margin": ["results_dem", "results_gop"]}
+
+
+def has_nan(f, estimands):
+    """the feed row lacks a value in a results column one of the requested estimands is made of"""
+    return any(f.get(c) is None or f.get(c) != f.get(c) for e in estimands for c in NEEDS[e])
 
 
 def run_get_units(case, stub_flags=None):
@@ -52,6 +62,30 @@ def run_get_units(case, stub_flags=None):
     return frames, flags
 
 
+def run_via_client(case):
+    """the same decision observed through ModelClient.get_estimates (the parameters travel through the client's own defaults and
+    lookups): returns (harvest, flags)"""
+    from harness import run_impl
+
+    run_impl._imp()
+    from elexmodel.handlers.data.CombinedData import CombinedDataHandler as C
+
+    flags = {"turnout_factor": [], "results_normalized_margin": []}
+    orig = C._fit_outlier_detection_model
+
+    def wrapped(slf, reporting_units, response_variable, z):
+        out = orig(slf, reporting_units, response_variable, z)
+        flags[response_variable] = list(out["geographic_unit_fips"])
+        return out
+
+    C._fit_outlier_detection_model = wrapped
+    try:
+        h = aggfam.harvest(case)
+    finally:
+        C._fit_outlier_detection_model = orig
+    return h, flags
+
+
 def py_decision(case, flags):
     """The decision table in Python (search oracle): id -> (category, reporting)"""
     p = case["params"]
@@ -68,7 +102,7 @@ def py_decision(case, flags):
     for b in case["baseline"]:
         f = feed.get((b["postal_code"], b["geographic_unit_fips"]))
         uid = b["geographic_unit_fips"]
-        if f is None:
+        if f is None or has_nan(f, p["estimands"]):
             if p.get("handle_unreporting", "drop") == "drop":
                 continue
             rw, pev = 0, 0
@@ -107,7 +141,7 @@ def encode(case, frames, flags):
     base = llit([f"{{| b_id := {slit(b['geographic_unit_fips'])}; b_postal := {slit(b['postal_code'])}; b_w := {qlit(weights_of(b, margin, 'baseline'))} |}}"
                  for b in case["baseline"]])
     feed = llit([f"{{| f_id := {slit(f['geographic_unit_fips'])}; f_postal := {slit(f['postal_code'])}; f_rw := {qlit(weights_of(f, margin, 'results'))}; "
-                 f"f_pev := {qlit(f['percent_expected_vote'])} |}}" for f in case["feed"]])
+                 f"f_pev := {qlit(f['percent_expected_vote'])}; f_nan := {core.blit(has_nan(f, p['estimands']))} |}}" for f in case["feed"]])
     impl = []
     for fr, rep in zip(frames, (True, False, False)):
         for _, r in fr.iterrows():
@@ -184,6 +218,22 @@ def worker(job):
     res["s"] = s_oracle(case, frames, flags)
     res["exprs"].append(encode(case, frames, flags))
     res["labels"].append(["get_units-vs-procedural-model", "procedural-vs-decision-table"])
+    if kw.get("via_client") and not kw.get("probe"):
+        h, flags2 = run_via_client(case)
+        fp["client"] = bool(h["ok"])
+        if h["ok"]:
+            want = py_decision(case, flags2)
+            e0 = p["estimands"][0]
+            got = {}
+            for r in h["unit"][e0]:
+                got.setdefault(r["geographic_unit_fips"], (r["unit_category"], int(r["reporting"])))
+            bad = [(u, got.get(u), w) for u, w in want.items() if got.get(u) != w]
+            if bad:
+                u, g, w = bad[0]
+                res["s"].append({"what": f"through ModelClient.get_estimates (model_parameters {p.get('model_parameters')}): unit {u} is {g} in the unit table but the "
+                                         f"eligibility rules with the configured limits say {w} ({len(bad)} units differ)", "kind": "category-client"})
+        elif h["exc"][0] not in ("ModelNotEnoughSubunitsException",):
+            res["s"].append({"what": f"get_estimates failed: {h['exc'][0]}: {h['exc'][1][:120]}", "kind": "client-run-fails", "exc": h["exc"][0]})
     res["sample"] = {"seed": seed, "probe": bool(kw.get("probe")), "office": case["office"], "policy": p.get("handle_unreporting"),
                      "threshold": p["percent_reporting_threshold"], "units": len(case["baseline"]), "categories": sorted(cats),
                      "flagged": {k: len(v) for k, v in flags.items()}}
@@ -246,7 +296,7 @@ def jobs_for(chk):
     jobs = [(0, {"probe": True, "policy": "drop"}), (1, {"probe": True, "policy": "zero"})]
     for i in range(n):
         pi = ["nonparametric", "bootstrap", "gaussian"][i % 3]
-        kw = {"pi_method": pi, "avoid_boot_nan_key": False}
+        kw = {"pi_method": pi, "avoid_boot_nan_key": i % 2 == 0, "nan_rows": i % 2 == 1, "via_client": i % 2 == 0}
         if i % 4 == 0:
             kw["threshold"] = rng.choice([0, 1, 50, 99, 100])
         jobs.append((rng.randint(0, 2**31), kw))
